@@ -19,7 +19,7 @@ RULE = ('supercell from the sampler menu (chains with 1-2 sublattices and specta
         'sc/fcc/bcc/hcp/diamond/B2/rocksalt/L12/tetragonal, diagonal and sheared supercell matrices) restricted to cells in which '
         'no cluster wraps onto itself x random cluster / vacancy-cluster / TS / KRA values '
         '(some zero) x variant (vacancy or not, TS clusters or not); exhaustive mode = every occupation (x every vacancy seat for '
-        '<= 6 sites, else 2 seats) x every reported transition; random mode = 12 occupations of mixed filling x <= 30 '
+        '<= 6 sites, else 2 seats) x every reported transition; random mode = 12 (thorough: 20) occupations of mixed filling x <= 30 '
         'transitions; non-trivial = transition with |E_final - E_initial| > 1e-6; distinct = (crystal, supercell, cutoff, order, variant, mode)')
 ASSUMPTIONS = ['tolerance 1e-9 x (sum of |energy interaction values| + largest sum of |terms| of one barrier)',
                'explored supercells: no cluster (incl. vacancy and transition-state clusters) contains two different sites that '
@@ -61,10 +61,10 @@ def cases(tier, seed):
             for v in VARIANTS:
                 out.append({'seed': seed, 'idx': n, 'hashseed': n % 7, 'mode': 'exhaustive', 'menu': 'medium', 'cfg': list(cfg), 'variant': v})
                 n += 1
-        for rep in range(4):
+        for rep in range(8):
             for cfg in sr.menu('large'):
                 for v in VARIANTS:
-                    out.append({'seed': seed, 'idx': n, 'hashseed': n % 7, 'mode': 'random', 'menu': 'large', 'cfg': list(cfg), 'variant': v})
+                    out.append({'seed': seed, 'idx': n, 'hashseed': n % 7, 'mode': 'random', 'menu': 'large', 'cfg': list(cfg), 'variant': v, 'nocc': 20})
                     n += 1
     return out
 
@@ -217,7 +217,7 @@ def run_case(case):
                 explore(mon, W, seat, occ, rng, 10 ** 6, p_update)
                 mon.count('occupations_exhausted')
     else:
-        for t in range(12):
+        for t in range(case.get('nocc', 12)):
             if len(mon.viol) >= 25: break
             seat = int(rng.choice(S.chemsites)) if vacancy else None
             if W.sampler(seat) is None: continue
